@@ -34,6 +34,10 @@ func runC06(c *Ctx) {
 	_, applyAdd := fsmApplyGuard(c, "R5")
 	fsmApplyAdd(c, "R5", applyAdd)
 	commandCodec(c, "R5")
+	applyPathNoRecover(c, "R5")
+	hasherFactoriesAreFresh(c, "R2", []string{"consensus", "server", "cmd", "balloon"})
+	restoreAlwaysTransfers(c, "R7")
+	transferCallbackErrorPropagates(c, "R7")
 	rebuildOnOpen(c, "R6")
 	c.Rule("R7", "a replica that rejoins by state transfer asks for, is sent and loads exactly what it lacks", 5)
 	transferRequest(c, "R7")
@@ -264,6 +268,15 @@ func c06Proposer(c *Ctx) {
 			return x.Op == "invoke" && x.Name == "Do" && len(x.Args) == 2 && x.Args[1].Op == "list" && len(x.Args[1].Args) == 1 &&
 				x.Args[1].Args[0].Has(func(y *Term) bool { return y.IsParam(ab, 1) })
 		})
+		// with a hasher made for this call (requests are proposed concurrently; a hasher kept in the node is
+		// stateful and shared: overlapping requests replicate a wrong digest to every replica)
+		sharedHasher := t.Has(func(x *Term) bool {
+			return x.Op == "invoke" && x.Name == "Do" && len(x.Args) == 2 && x.Args[0].Strip().Op == "field" && x.Args[0].Strip().Args[0].IsParam(ab, 0)
+		})
+		if ok && sharedHasher {
+			ok = false
+			got += " (hashed with a hasher stored in the node, shared by concurrent requests)"
+		}
 	})
 	c.Check(ok, "R2", funcName(ab)+":payload", ab.Pos(), "command payload = [hasher.Do(event) for event in bulk]", "the replicated command's payload is "+got+", expected the digests of the submitted events")
 	apply := p.MustMethod(pkgConsensus, "RaftNode", "Apply")
